@@ -114,9 +114,22 @@ class World(StackWorld):
         self.may_stop = ch.flag("app-calls-stop", 0.3)
         self.t_start = self.now()
         self.last_end = self.now()
+        # a stop() on the idle component (a tidy-up in a `finally:`, a signal handler that fired early) is spent: the
+        # start() that follows is a run of its own
+        cfg["stop_while_idle"] = ch.flag("stop-called-on-the-idle-component-before-start", 0.12)
+        if cfg["stop_while_idle"]:
+            try:
+                self.fw.call(self, self.component.stop)
+                self.run.probe("stop-on-idle-component")
+            except Exception as e:  # noqa
+                self.run.probe("stop-on-idle-component-raised:%s" % type(e).__name__)
+            self.settle_idle()
         f = self.fw.call(self, self.component.start, self.reactor)
         self.done = self.fw.watch(f)
         self.pump_component()
+
+    def settle_idle(self):
+        self.fw.loop_drain(self)
 
     def on_session_event(self, name, sess):
         self.session_events.append((name, sess._vid))
